@@ -93,6 +93,10 @@ func TestVerifC20CLI(t *testing.T) {
 		{"through-relative-link", outside, "relLink/sigs.db"},
 		{"new-database-inside", outside, filepath.Join(prot, "fresh.db")},
 		{"new-database-through-link", outside, "absLink/sub/fresh.db"},
+		// a database name that only LOOKS like the flat-file back end's (the extension is not ".json")
+		{"new-database-upper-case-json-extension", outside, filepath.Join(prot, "fresh.JSON")},
+		{"new-database-mixed-case-json-extension-through-link", outside, "absLink/sub/fresh.Json"},
+		{"new-database-json-directory-name", outside, filepath.Join(prot, "x.json") + "/"},
 		{"CONTROL-outside", outside, filepath.Join(outside, "sigs.db")},
 		{"CONTROL-outside-relative", outside, "sigs.db"},
 	}
